@@ -84,6 +84,25 @@ func H_C09_parse(n int) {
 	}
 	sd, serr := DefaultParser(string(in), r)
 	vAssert("string-agrees", (serr == nil) == (err == nil) && sd == d)
+	// through UnmarshalText (rule 0) a refusal is still the typed error: errors.As / errors.Is see through the wrapper
+	u := Date{year: vI32("prev.year"), month: vU8("prev.month"), day: vU8("prev.day")}
+	uerr := u.UnmarshalText(in)
+	_, perr0 := DefaultParser(in, 0)
+	vAssert("unmarshaltext-agrees", (uerr == nil) == (perr0 == nil))
+	if uerr != nil {
+		typedU := false
+		for e := uerr; e != nil; {
+			if _, isPE := e.(*ParseError[[]byte]); isPE {
+				typedU = true
+			}
+			w, okW := e.(interface{ Unwrap() error })
+			if !okW {
+				break
+			}
+			e = w.Unwrap()
+		}
+		vAssert("unmarshaltext-error-is-typed", typedU)
+	}
 }
 
 // longer years need a raised or disabled limit; with the limit in force longer input is ErrInputTooLong
